@@ -14,7 +14,7 @@ def check(ctx, rep):
     if not m.ok:
         return
     A.rule_isolation(m, rep, 'R1')
-    A.rule_emit(m, rep, 'R2')
+    A.rule_emit(m, rep, 'R2', strict=True)
     A.rule_capacity(m, rep, 'R3')
     A.rule_task_closure(m, rep, 'R4', parts=('unit',))
     A.rule_one_consumer(m, rep, 'R4b', parts=('callers',))
